@@ -319,7 +319,10 @@ fn read_server_addresses(src: &mut impl io::Read) -> Result<[Option<SocketAddr>;
                 let addr = SocketAddr::new(IpAddr::V6(Ipv6Addr::from(ip)), port);
                 *server_address = Some(addr);
             }
-            NETCODE_ADDRESS_NONE => {} // skip
+            NETCODE_ADDRESS_NONE => {
+                // An empty slot inside the announced addresses would be dropped when the token is written again
+                return Err(io::Error::new(io::ErrorKind::InvalidData, "Empty server address in ConnectToken"));
+            }
             _ => return Err(io::Error::new(io::ErrorKind::InvalidData, "Unknown ip address type")),
         }
     }
